@@ -33,6 +33,11 @@ Proof. vm_compute. repeat split; reflexivity. Qed.
 Lemma pauli_xx_yy : m2_add (m2_mul sX sX) (m2_mul sY sY) = m2_scale (gi_of 2) (m2_add (m2_mul sP sM) (m2_mul sM sP)).
 Proof. vm_compute. reflexivity. Qed.
 
+(* Heisenberg exchange on two sites:  S.S = (XX + YY + ZZ)/4 = ZZ/4 + (s+ s- + s- s+)/2 *)
+Lemma heisenberg_exchange :
+  gl_add (kron2 sX sX) (kron2 sY sY) = gl_scale (gi_of 2) (gl_add (kron2 sP sM) (kron2 sM sP)).
+Proof. vm_compute. reflexivity. Qed.
+
 (* every alias denotes the same matrix as its canonical name *)
 Lemma spin_aliases :
   forallb (fun p => match lookup (fst p) spin_symbols, lookup (snd p) spin_symbols with
